@@ -27,7 +27,7 @@ fn main() {
         level: "exploration",
         rule: "soup/corpus/fuzz: the input lexes to >= 1 keyword token (reaches the parser past the lexer); \
                trees: >= 3 distinct documented precedence levels among the operator nodes AND the minimal printing omits a \
-               parenthesis the full printing has; stmts: the sequence contains >= 1 statement that returned >= 1 row; \
+               parenthesis the full printing has; stmts: the sequence contains >= 1 reading statement (SELECT / NODE GET / NODE LIST / EDGE GET / EDGE LIST / NEIGHBORS / PATH / SIMILAR / SHOW TABLES) that returned >= 1 row; \
                nest: the probe text contains a keyword",
         assumptions: vec![
             "documented precedence = table at neumann_parser/src/expr.rs:7-18 and docs/book/src/architecture/neumann-parser.md (all binary operators left-associative, prefix above binary, postfix above prefix)",
